@@ -1,20 +1,25 @@
 #!/bin/sh
 # Runs every rule against each behaviour-preserving refactoring patch kept under
-# seeded/refactors/. The patches were written against commit $BASE of /repo; they are applied
-# to a throw-away worktree of that commit and the alarms are compared with those of the
-# unpatched commit: only NEW alarms (rule + construct) are printed - each is a false alarm.
-BASE=${BASE:-787d91c}
+# seeded/refactors/<X>/ (patch.diff, README.txt, base = the commit of /repo it was written
+# against). Each patch is applied to a throw-away worktree of its base commit and the alarms
+# are compared with those of the unpatched base: only NEW alarms (rule + construct) are
+# printed - each one is a false alarm of the checker.
+# usage: tools/check_refactors.sh [X ...]   (default: all)
 cd /verif
-run() { # $1 = optional patch
+run() { # $1 = base, $2 = optional patch
   wt=$(mktemp -d /tmp/rfwt.XXXXXX); ev=$(mktemp -d /tmp/rfev.XXXXXX); cp known_findings.json "$ev"/
-  git -C /repo worktree add --detach "$wt" "$BASE" >/dev/null 2>&1 || { echo "worktree failed"; return; }
-  if [ -n "$1" ]; then git -C "$wt" apply "$1" || echo "PATCH DOES NOT APPLY"; fi
+  git -C /repo worktree add --detach "$wt" "$1" >/dev/null 2>&1 || { echo "worktree failed"; return; }
+  if [ -n "$2" ]; then git -C "$wt" apply "$2" || echo "PATCH DOES NOT APPLY"; fi
   VERIF_REPO="$wt" VERIF_DIR="$ev" bin/verifsa check ALL 2>&1 | grep -E "^\S+: \[[A-Z0-9a-z]+\] |CHECKER-FAILURE" | sed -E 's/^[^[]*(\[[A-Za-z0-9]+\] [^:]*(: [^:]*)?).*/\1/' | sort -u
   rm -rf "$ev"; git -C /repo worktree remove --force "$wt"
 }
-run "" > /tmp/rf.base.txt
-for d in seeded/refactors/*/; do
-  run "/verif/$d/patch.diff" > /tmp/rf.cur.txt
-  new=$(comm -13 /tmp/rf.base.txt /tmp/rf.cur.txt)
-  echo "## $d: $(echo "$new" | grep -c . ) new alarm(s)"; [ -n "$new" ] && echo "$new" | cut -c1-200
+sel="$*"; [ -z "$sel" ] && sel=$(ls seeded/refactors)
+for x in $sel; do
+  d=seeded/refactors/$x
+  base=$(cat $d/base 2>/dev/null || echo 787d91c)
+  [ -f /tmp/rf.base.$base.txt ] || run "$base" "" > /tmp/rf.base.$base.txt
+  run "$base" "/verif/$d/patch.diff" > /tmp/rf.cur.txt
+  new=$(comm -13 /tmp/rf.base.$base.txt /tmp/rf.cur.txt)
+  echo "## $d: $(echo "$new" | grep -c . ) new alarm(s)"; [ -n "$new" ] && echo "$new" | cut -c1-220
 done
+rm -f /tmp/rf.base.*.txt /tmp/rf.cur.txt
